@@ -1634,11 +1634,6 @@ static void do_source_file(const char *filename_in,
    {
       fclose(pfout);
 
-      if (need_backup)
-      {
-         backup_create_md5_file(filename_in);
-      }
-
       if (filename_tmp != filename_out)
       {
          // We need to compare and then do a rename (but avoid redundant test when if_changed set)
@@ -1667,6 +1662,12 @@ static void do_source_file(const char *filename_in,
                exit(EX_IOERR);
             }
          }
+      }
+
+      if (need_backup)
+      {
+         // the md5 must describe the content that was just installed
+         backup_create_md5_file(filename_in);
       }
 
       if (keep_mtime)
